@@ -4,6 +4,7 @@ package main
 
 import (
 	"fmt"
+	"os"
 	"go/token"
 	"go/types"
 	"sort"
@@ -265,10 +266,21 @@ func (x *ctx) ghostRead(st *state, name string, callee *ssa.Function, args []val
 	}
 	r := term{t, hi.elem}
 	x.assumeFieldInv(st, x.ghostKey(name), r)
-	if hi.elem == sRef {
+	if hi.elem == sRef && isRefType(callee.Signature.Results().At(0).Type()) {
 		x.noteAllocated(st, r)
 	}
 	return scalar(r)
+}
+
+func isRefType(t types.Type) bool {
+	if _, ok := t.(*types.TypeParam); ok {
+		return false
+	}
+	switch t.Underlying().(type) {
+	case *types.Pointer, *types.Interface, *types.Map, *types.Slice, *types.Chan, *types.Signature:
+		return true
+	}
+	return false
 }
 
 // assumeFieldInv assumes the global invariant of a ghost field for the value just read.
@@ -907,6 +919,10 @@ func (x *ctx) applyModifies(st, pre *state, con *Contract, mods []*ModItem, env 
 				hi = x.ghostInfo(mi.Ghost, stub.Signature)
 			}
 			x.ghostWrite(st, mi.Ghost, idx, x.freshTerm("mod_"+mi.Ghost, hi.elem))
+		case "mapof":
+			f := x.synth(con, mi.ArgFns[0])
+			base := x.evalSpecFn(pre, f, nil, x.bindArgs(f, nil, env))
+			x.havocMap(st, base.t)
 		case "field":
 			f := x.synth(con, mi.ArgFns[0])
 			base := x.evalSpecFn(pre, f, nil, x.bindArgs(f, nil, env))
@@ -1008,6 +1024,37 @@ func (x *ctx) havocField(st *state, base val, bt types.Type, field string) {
 	x.fail("modifies: no field %s in %s", field, bt)
 }
 
+// havocMap havocs the contents (presence, values, cardinality) of the Go map at reference m only.
+func (x *ctx) havocMap(st *state, m term) {
+	var keys []string
+	for k := range x.hinfo {
+		if strings.HasPrefix(k, "G:mapP_") || strings.HasPrefix(k, "G:mapV_") || k == "G:mapN" {
+			keys = append(keys, k)
+		}
+	}
+	sort.Strings(keys)
+	for _, k := range keys {
+		hi := x.hinfo[k]
+		name := "ghost_" + strings.TrimPrefix(k, "G:")
+		cur := x.ghostArr(st, name, hi)
+		var inner string
+		if len(hi.ksorts) == 2 {
+			inner = x.freshName("maprow")
+			x.declare(inner, fmt.Sprintf("(Array %s %s)", hi.ksorts[1].name, hi.elem.name))
+		} else {
+			inner = x.freshName("mapcard")
+			x.declare(inner, hi.elem.name)
+			if k == "G:mapN" {
+				st.define(fmt.Sprintf("(bvsge %s %s)", inner, bvlit(0, 64)))
+			}
+		}
+		n := x.freshName("G_" + strings.TrimPrefix(k, "G:"))
+		x.declare(n, ghostSort(hi))
+		st.define(fmt.Sprintf("(= %s (store %s %s %s))", n, cur, m.s, inner))
+		st.heap[k] = n
+	}
+}
+
 func (x *ctx) havocAll(st *state, typ string) {
 	var keys []string
 	for k := range x.hinfo {
@@ -1016,13 +1063,16 @@ func (x *ctx) havocAll(st *state, typ string) {
 	sort.Strings(keys)
 	for _, k := range keys {
 		if typ == "*" || strings.HasPrefix(k, typ+".") || (typ == "node" && strings.HasPrefix(k, "G:")) {
-			if x.w.immutable[k] {
+			if x.w.immutable[k] || k == "Len" {
 				continue
 			}
 			hi := x.hinfo[k]
 			old, had := st.heap[k]
 			if !had {
 				old = x.initialName(k)
+			}
+			if os.Getenv("GOVC_TRACE_HAVOC") == k {
+				debugf("havocAll typ=%s key=%s", typ, k)
 			}
 			x.havocKey(st, k)
 			// objects allocated by the function under verification and never handed out keep their fields
@@ -1233,9 +1283,20 @@ func (x *ctx) loopEntry(st *state, fr *frame, b *ssa.BasicBlock, prev *ssa.Basic
 	for _, in := range b.Instrs {
 		if ph, ok := in.(*ssa.Phi); ok {
 			fr.regs[ph] = x.freshVal("loop_"+ph.Comment, ph.Type())
+			x.typeTag(st, fr.regs[ph].t, ph.Type())
+			if fr.regs[ph].t.s != "" && isRefType(ph.Type()) {
+				x.noteAllocated(st, fr.regs[ph].t)
+			}
 		}
 	}
 	x.havocLoop(st, fr, b)
+	for _, in := range b.Instrs {
+		if ph, ok := in.(*ssa.Phi); ok && ph.Comment == "rangeindex" {
+			// compiler-generated index of a range over a slice: starts at -1 and only increases below len
+			st.define(x.binop(token.GEQ, fr.regs[ph].t, mkbv(^uint64(0), 64), types.Typ[types.Int]).s)
+			st.define(not(eq(fr.regs[ph].t, mkbv(uint64(1)<<63-1, 64))))
+		}
+	}
 	for _, cl := range ls.Invariants {
 		st.assume(evalInv(st, cl, true))
 	}
@@ -1284,6 +1345,7 @@ func (x *ctx) havocLoop(st *state, fr *frame, b *ssa.BasicBlock) {
 		}
 	}
 	if ms.all {
+		debugf("loop %d of %s havocs everything (a callee in the body modifies *)", loopOrdinal(b), fr.fn.Name())
 		x.havocAll(st, "*")
 	}
 	var keys []string
@@ -1292,11 +1354,18 @@ func (x *ctx) havocLoop(st *state, fr *frame, b *ssa.BasicBlock) {
 	}
 	sort.Strings(keys)
 	for _, k := range keys {
+		if k == "Len" {
+			continue // the length of an existing slice value never changes (append and slicing create new references)
+		}
 		x.havocKey(st, k)
 	}
 	for id := range ms.cells {
 		if t, ok := x.cellRootType[id]; ok {
 			st.cells[id] = x.freshVal("loopcell", t)
+			if v := st.cells[id]; v.t.s != "" && isRefType(t) {
+				x.typeTag(st, v.t, t)
+				x.noteAllocated(st, v.t)
+			}
 		}
 	}
 }
@@ -1409,6 +1478,12 @@ func (x *ctx) contractMods(con *Contract, mods []*ModItem, ms *modSet) {
 				ms.keys["G:"+mi.Field] = true
 			} else {
 				ms.keys[mi.Type+"."+mi.Field] = true
+			}
+		case "mapof":
+			for k := range x.hinfo {
+				if strings.HasPrefix(k, "G:mapP_") || strings.HasPrefix(k, "G:mapV_") || k == "G:mapN" {
+					ms.keys[k] = true
+				}
 			}
 		case "resultfield":
 			ms.keys["G:"+mi.Field] = true
